@@ -5416,6 +5416,12 @@ class CodegenCtx:
         if ProgramData.do(ProgramFlag.DYNAMIC_MEMORY):
             result.add("#include <stdlib.h>")
         result.add()
+        # User expressions may compare a narrow variable (or a string length, an indexed byte, $last) with a constant outside its
+        # range; clang diagnoses that by default, which -Werror turns into a build failure of the generated file.
+        result.add("#if defined(__clang__)")
+        result.add("#pragma clang diagnostic ignored \"-Wtautological-constant-out-of-range-compare\"")
+        result.add("#endif")
+        result.add()
         result += self._generate_start_implementation()
         result += self._generate_feed_implementation()
         if ProgramData.do(ProgramFlag.EOF_SUPPORT):
